@@ -2,7 +2,7 @@
    Only statements; models and proofs live in theories/Find/. *)
 From Coq Require Import String.
 From Coq Require Import List.
-From BFG Require Import Base.Chars Find.Glob Find.GlobProofs.
+From BFG Require Import Base.Chars Find.Glob Find.GlobProofs Find.Filter Find.FilterProofs Find.Walk Find.WalkProofs.
 Local Open Scope N_scope.
 
 (* one component: the executable matcher used for every glob component and every NameGlob decides
@@ -41,7 +41,117 @@ Theorem C11_never_sound : forall g d q skip, pg_match g d skip = Never -> below 
 Proof. exact pg_never_sound. Qed.
 Print Assumptions C11_never_sound.
 
+(* at the filter level: once all include globs say never for a directory, nothing below it is included,
+   whatever extra patterns and the filter function say *)
+Theorem C11_never_sound_filter : forall f d q,
+  inc_res f d = Never -> below d q -> is_inc (fmatch f q) = false.
+Proof. exact never_sound_filter. Qed.
+Print Assumptions C11_never_sound_filter.
+
+(* FindResult and PathGlob.Result: and is max, or is min, both associative, commutative, idempotent, absorbing *)
+Theorem C11_filter_lattice :
+  (forall a b, fres_val (fand a b) = Nat.max (fres_val a) (fres_val b)) /\
+  (forall a b, fres_val (for_ a b) = Nat.min (fres_val a) (fres_val b)) /\
+  (forall a b, fand a b = fand b a) /\ (forall a b c, fand a (fand b c) = fand (fand a b) c) /\ (forall a, fand a a = a) /\
+  (forall a b, for_ a b = for_ b a) /\ (forall a b c, for_ a (for_ b c) = for_ (for_ a b) c) /\ (forall a, for_ a a = a) /\
+  (forall a b, for_ a (fand a b) = a) /\ (forall a b, fand a (for_ a b) = a).
+Proof. exact fres_lattice. Qed.
+Print Assumptions C11_filter_lattice.
+
+Theorem C11_result_lattice :
+  (forall a b, res_val (rand a b) = Nat.max (res_val a) (res_val b)) /\
+  (forall a b, res_val (ror a b) = Nat.min (res_val a) (res_val b)) /\
+  (forall a b, rand a b = rand b a) /\ (forall a b c, rand a (rand b c) = rand (rand a b) c) /\ (forall a, rand a a = a) /\
+  (forall a b, ror a b = ror b a) /\ (forall a b c, ror a (ror b c) = ror (ror a b) c) /\ (forall a, ror a a = a) /\
+  (forall a b, ror a (rand a b) = a) /\ (forall a b, rand a (ror a b) = a).
+Proof. exact res_lattice. Qed.
+Print Assumptions C11_result_lattice.
+
+(* the walk as implemented (directories answered exclude_recursive are deleted from the list, also when the
+   answer comes from a never of the globs) finds, in the same order, what the walk finds that prunes only on the
+   documented exclusions (exclude patterns, exclude_recursive from the filter function) *)
+Theorem C11_pruning_invisible : forall f starts,
+  found_of (find_files (prune_real f) (fmatch f) starts) = found_of (find_files (prune_doc f) (fmatch f) starts).
+Proof. exact pruning_invisible. Qed.
+Print Assumptions C11_pruning_invisible.
+
+(* found = the declarative selection over the tree: an entry is found iff the filter includes it and it is
+   reachable from the start directory through directories that are neither symbolic links nor excluded *)
+Theorem C11_walk_eq_spec : forall f p ch x,
+  In x (found_of (walk_top (prune_real f) (fmatch f) p ch)) <-> selected f p ch x.
+Proof. exact find_selected. Qed.
+Print Assumptions C11_walk_eq_spec.
+
+(* every found entry is a start directory itself or an entry of the tree below an existing start directory *)
+Theorem C11_found_exist : forall f starts x, In x (found_of (find_files (prune_real f) (fmatch f) starts)) ->
+  (exists s, In s starts /\ x = fst s) \/ (exists p ch, In (p, Some ch) starts /\ in_tree p ch x).
+Proof. exact found_exist. Qed.
+Print Assumptions C11_found_exist.
+
+Theorem C11_extras_disjoint : forall f prune starts x,
+  In x (found_of (find_files prune (fmatch f) starts)) -> In x (extra_of (find_files prune (fmatch f) starts)) -> False.
+Proof. exact extras_disjoint. Qed.
+Print Assumptions C11_extras_disjoint.
+
+(* with dist set, every found and every extra entry of the source directory is registered for the source
+   distribution after a search ... *)
+Theorem C11_dist_registered_miss : forall fixed f starts (cache : bool) st x,
+  (if cache then cache_get (key_of f) (st_cache st) else None) = None ->
+  let ents := find_files (prune_real f) (fmatch f) starts in
+  In x (found_of ents) \/ In x (extra_of ents) -> p_root x = 1 ->
+  fst (find_from_filter fixed f starts true cache st) = found_of ents /\
+  In (pkey_of x) (st_dist (snd (find_from_filter fixed f starts true cache st))).
+Proof. exact dist_registered_miss. Qed.
+Print Assumptions C11_dist_registered_miss.
+
+(* ... and after a cache hit, for the cache-hit branch as repaired by repo commit 491a34f (fixed = true) *)
+Theorem C11_dist_registered_hit : forall f starts st found extra x,
+  cache_get (key_of f) (st_cache st) = Some (found, extra) ->
+  In x found \/ In x extra -> p_root x = 1 ->
+  fst (find_from_filter true f starts true true st) = found /\
+  In (pkey_of x) (st_dist (snd (find_from_filter true f starts true true st))).
+Proof. exact dist_registered_hit. Qed.
+Print Assumptions C11_dist_registered_hit.
+
+(* the branch as written before the repair (fixed = false) loses the extra file on a cache hit *)
+Definition ex_filter : ffilter :=
+  match mk_filter [mkpath 1 [STR "src"; STR "*.c"] false] None [STR "*.h"] [] None with
+  | Some f => f
+  | None => mkfilter [] [] [] None
+  end.
+Definition ex_fs : fsys := [(1, [Dir (STR "src") false [File (STR "a.c"); File (STR "a.h"); Dir (STR "sub") false [File (STR "b.c")]]])].
+Definition ex_starts : list start := [start_of ex_fs (mkpath 1 [STR "src"] true)].
+Definition ex_cached : fstate :=   (* the state find_check_cache leaves behind: cache filled, nothing registered *)
+  mkst (st_cache (snd (find_from_filter true ex_filter ex_starts true true (mkst [] [] [])))) [] [].
+Theorem C11_unfixed_cache_hit_drops_extra :
+  exists f starts st x, In x (extra_of (find_files (prune_real f) (fmatch f) starts)) /\ p_root x = 1 /\
+    cache_get (key_of f) (st_cache st) = Some (found_of (find_files (prune_real f) (fmatch f) starts),
+                                              extra_of (find_files (prune_real f) (fmatch f) starts)) /\
+    ~ In (pkey_of x) (st_dist (snd (find_from_filter false f starts true true st))) /\
+    In (pkey_of x) (st_dist (snd (find_from_filter true f starts true true st))).
+Proof.
+  exists ex_filter, ex_starts, ex_cached, (mkpath 1 [STR "src"; STR "a.h"] false).
+  vm_compute. repeat split; auto.
+  intros [H|[]]. discriminate H.
+Qed.
+Print Assumptions C11_unfixed_cache_hit_drops_extra.
+
+(* a second cached lookup of an equal filter (FileFilter.__eq__ = equal include, extra, exclude, filter_fn)
+   returns the list the first one returned *)
+Theorem C11_cache : forall fixed f f' starts starts' dist dist' st,
+  key_of f' = key_of f ->
+  let '(r1, st1) := find_from_filter fixed f starts dist true st in
+  fst (find_from_filter fixed f' starts' dist' true st1) = r1.
+Proof. exact cache_second_lookup. Qed.
+Print Assumptions C11_cache.
+
 (* ---- non-vacuity *)
+Example ex_walk :
+  found_of (find_files (prune_real ex_filter) (fmatch ex_filter) ex_starts) = [mkpath 1 [STR "src"; STR "a.c"] false] /\
+  extra_of (find_files (prune_real ex_filter) (fmatch ex_filter) ex_starts) = [mkpath 1 [STR "src"; STR "a.h"] false] /\
+  fmatch ex_filter (mkpath 1 [STR "src"; STR "sub"] true) = ExclRec /\
+  hard_excl ex_filter (mkpath 1 [STR "src"; STR "sub"] true) = false.
+Proof. vm_compute. auto. Qed.
 Definition ex_glob : pglob :=   (* src/**/a*/?.c, type file *)
   mkpglob 1 [STR "src"] [STR "**"; STR "a*"; STR "?.c"] TFile.
 Example ex_yes : pg_match ex_glob (mkpath 1 [STR "src"; STR "x"; STR "y"; STR "ab"; STR "m.c"] false) false = Yes.
